@@ -126,6 +126,21 @@ class SigCollector(Collector):
         self.records.append((m.sig, self.id, t) if not pad else (m.sig, self.id, t, "x" * pad))
 
 
+class LenSigCollector(SigCollector):
+    """The same collector with a container protocol over its records: falsy as long as it has recorded nothing."""
+
+    def __len__(self):
+        return len(self.records)
+
+    def __iter__(self):
+        return iter(self.records)
+
+
+# parameter names a user's model may well have, and which the batching code uses for arguments of its own
+SPECIAL_NAMES = ["max_timesteps", "model_cls", "collectors", "processes", "repetitions", "parameters", "mode", "kwargs", "run",
+                 "model", "score_func", "timesteps"]
+
+
 class BatchModel(Model):
     def __init__(self, **params):
         super().__init__(seed=1)       # never OS entropy inside the harness: every run must replay exactly
@@ -151,7 +166,7 @@ class BatchModel(Model):
         self.systems.add_system(Stopper(self))
         self.systems.add_system(Work(self))
         for name, freq in CONFIG.get("collectors_defined", [["col0", 1], ["col1", 2], ["col2", 1]]):
-            self.systems.add_system(SigCollector(name, self, frequency=freq))
+            self.systems.add_system((LenSigCollector if CONFIG.get("falsy_collectors") else SigCollector)(name, self, frequency=freq))
 
 
 def expected_records(sig, name, freq, max_ts):
